@@ -117,3 +117,119 @@ Proof.
   destruct (t_cases j) as [[-> Hw]|[-> Hw]]; nra.
 Qed.
 End Kaykobad.
+
+Lemma sumn_shift n (g : nat -> R) : sumn (S n) g = g O + sumn n (fun j => g (S j)).
+Proof. induction n as [|n IH]; simpl in *; [lra|]. rewrite IH. lra. Qed.
+
+(* the sign used by PolyhedralTerm.get_sign: +1 for a nonnegative coefficient, -1 otherwise *)
+Definition sgnR (x : R) : R := if Rle_dec 0 x then 1 else -1.
+Lemma sgn_abs x : sgnR x * Rabs x = x.
+Proof.
+  unfold sgnR. destruct (Rle_dec 0 x) as [H|H].
+  - rewrite Rabs_pos_eq by exact H. lra.
+  - rewrite Rabs_left by lra. lra.
+Qed.
+Lemma sgn_sq x : sgnR x * sgnR x = 1.
+Proof. unfold sgnR. destruct (Rle_dec 0 x); lra. Qed.
+Lemma sgn_cases x : sgnR x = 1 \/ sgnR x = -1.
+Proof. unfold sgnR. destruct (Rle_dec 0 x); [left|right]; reflexivity. Qed.
+Lemma abs_sgn x : Rabs x = sgnR x * x.
+Proof. pose proof (sgn_abs x). pose proof (sgn_sq x). destruct (sgn_cases x) as [E|E]; rewrite E in *; lra. Qed.
+
+(* the residual computed by _get_kaykobad_context is the scaled off-diagonal entry *)
+Lemma res_eq tc a_ij a_ii q_j q_i :
+  tc * tc = 1 -> (a_ij <> 0 -> tc * sgnR a_ij = sgnR q_j) -> a_ii <> 0 -> tc * sgnR a_ii = sgnR q_i ->
+  sgnR q_j * a_ij * q_i / a_ii = Rabs a_ij * Rabs q_i / Rabs a_ii.
+Proof.
+  intros Htc Hij Hii Hqi. assert (Hd : Rabs a_ii <> 0) by (apply Rabs_no_R0; exact Hii).
+  destruct (Req_dec a_ij 0) as [->|Hn].
+  - rewrite Rabs_R0. field. split; assumption.
+  - specialize (Hij Hn). rewrite <- Hij.
+    rewrite <- (sgn_abs a_ij) at 2. rewrite <- (sgn_abs q_i) at 1. rewrite <- Hqi.
+    rewrite <- (sgn_abs a_ii) at 2.
+    pose proof (sgn_sq a_ij) as S1. pose proof (sgn_sq a_ii) as S2.
+    assert (Hs2 : sgnR a_ii <> 0) by (destruct (sgn_cases a_ii) as [E|E]; rewrite E; lra).
+    replace (tc * sgnR a_ij * (sgnR a_ij * Rabs a_ij) * (tc * sgnR a_ii * Rabs q_i) / (sgnR a_ii * Rabs a_ii))
+      with ((tc * tc) * (sgnR a_ij * sgnR a_ij) * (Rabs a_ij * Rabs q_i / Rabs a_ii)) by (field; split; assumption).
+    rewrite Htc, S1. lra.
+Qed.
+(* |a| * (tc * sgn q * d) = a * d under the sign pattern *)
+Lemma sign_pattern tc a q d :
+  tc * tc = 1 -> (a <> 0 -> tc * sgnR a = sgnR q) -> Rabs a * (tc * sgnR q * d) = a * d.
+Proof.
+  intros Htc H. destruct (Req_dec a 0) as [->|Hn]; [rewrite Rabs_R0; lra|].
+  rewrite <- (H Hn). rewrite (abs_sgn a). pose proof (sgn_sq a).
+  replace (sgnR a * a * (tc * (tc * sgnR a) * d)) with ((tc * tc) * (sgnR a * sgnR a) * (a * d)) by ring.
+  rewrite Htc, H0. lra.
+Qed.
+
+Lemma sumn_abs_le n f : Rabs (sumn n f) <= sumn n (fun i => Rabs (f i)).
+Proof.
+  induction n as [|n IH]; simpl; [rewrite Rabs_R0; lra|].
+  eapply Rle_trans; [apply Rabs_triang|]. lra.
+Qed.
+Lemma sumn_nonneg_zero n f : (forall i, (i < n)%nat -> 0 <= f i) -> sumn n f <= 0 ->
+  forall i, (i < n)%nat -> f i = 0.
+Proof.
+  induction n as [|n IH]; intros Hf Hs i Hi; [lia|]. simpl in Hs.
+  assert (H1 : 0 <= sumn n f) by (apply sumn_nonneg; intros k Hk; apply Hf; lia).
+  assert (H2 : 0 <= f n) by (apply Hf; lia).
+  destruct (Nat.eq_dec i n) as [->|Hne]; [lra|]. apply IH; [intros k Hk; apply Hf; lia|lra|lia].
+Qed.
+
+(* the same hypotheses make the matrix nonsingular *)
+Section KaykobadNonsingular.
+Variable n : nat.
+Variables (a : nat -> nat -> R) (q w : nat -> R).
+Hypothesis Hq : forall j, (j < n)%nat -> 0 < q j.
+Hypothesis Ha : forall i j, (i < n)%nat -> (j < n)%nat -> 0 <= a i j.
+Hypothesis Hd : forall i, (i < n)%nat -> 0 < a i i.
+Hypothesis Hdom : forall j, (j < n)%nat -> sumn n (fun i => off a q i j) < q j.
+Hypothesis Hrows : forall i, (i < n)%nat -> sumn n (fun j => a i j * w j) = 0.
+
+Lemma scaled_row_eq i : (i < n)%nat ->
+  q i * w i + sumn n (fun j => off a q i j * w j) = 0.
+Proof.
+  intros Hi. pose proof (Hrows i Hi) as Hr. pose proof (Hq i Hi) as Hqi. pose proof (Hd i Hi) as Hdi.
+  assert (E : q i * w i + sumn n (fun j => off a q i j * w j)
+              = (q i / a i i) * sumn n (fun j => a i j * w j)).
+  { rewrite <- sumn_scale.
+    replace (q i * w i) with (sumn n (fun j => if Nat.eqb i j then q j * w j else 0)).
+    - rewrite <- sumn_plus. apply sumn_ext. intros j Hj. unfold off.
+      destruct (Nat.eqb i j) eqn:Eij.
+      + apply Nat.eqb_eq in Eij. subst j. field. lra.
+      + field. lra.
+    - rewrite sumn_delta. apply Nat.ltb_lt in Hi. rewrite Hi. reflexivity. }
+  rewrite E, Hr. lra.
+Qed.
+
+Theorem kaykobad_nonsingular : forall j, (j < n)%nat -> w j = 0.
+Proof.
+  assert (Hoff : forall i j, (i < n)%nat -> (j < n)%nat -> 0 <= off a q i j).
+  { intros i j Hi Hj. apply (off_nonneg n a q Hq Ha Hd i j Hi Hj). }
+  assert (H1 : forall i, (i < n)%nat -> q i * Rabs (w i) <= sumn n (fun j => off a q i j * Rabs (w j))).
+  { intros i Hi. pose proof (scaled_row_eq i Hi) as E. pose proof (Hq i Hi) as Hqi.
+    assert (E2 : q i * w i = - sumn n (fun j => off a q i j * w j)) by lra.
+    replace (q i * Rabs (w i)) with (Rabs (q i * w i)) by (rewrite Rabs_mult, (Rabs_pos_eq (q i)); lra).
+    rewrite E2, Rabs_Ropp. eapply Rle_trans; [apply sumn_abs_le|]. apply sumn_le. intros j Hj.
+    rewrite Rabs_mult, (Rabs_pos_eq (off a q i j)); [lra|apply Hoff; assumption]. }
+  assert (H2 : sumn n (fun j => (q j - sumn n (fun i => off a q i j)) * Rabs (w j)) <= 0).
+  { assert (H3 : sumn n (fun i => q i * Rabs (w i)) <= sumn n (fun i => sumn n (fun j => off a q i j * Rabs (w j))))
+      by (apply sumn_le; exact H1).
+    rewrite sumn_swap in H3.
+    rewrite (sumn_ext n (fun j => (q j - sumn n (fun i => off a q i j)) * Rabs (w j))
+                        (fun j => q j * Rabs (w j) + -1 * sumn n (fun i => off a q i j * Rabs (w j)))).
+    - rewrite sumn_plus, sumn_scale. lra.
+    - intros j Hj.
+      assert (E : sumn n (fun i => off a q i j * Rabs (w j)) = Rabs (w j) * sumn n (fun i => off a q i j)).
+      { rewrite <- sumn_scale. apply sumn_ext. intros; lra. }
+      rewrite E. lra. }
+  intros j Hj.
+  assert (H4 : (q j - sumn n (fun i => off a q i j)) * Rabs (w j) = 0).
+  { apply (sumn_nonneg_zero n (fun j => (q j - sumn n (fun i => off a q i j)) * Rabs (w j))); [|exact H2|exact Hj].
+    intros k Hk. pose proof (Hdom k Hk). pose proof (Rabs_pos (w k)). nra. }
+  pose proof (Hdom j Hj). pose proof (Rabs_pos (w j)).
+  assert (Rabs (w j) = 0) by nra.
+  destruct (Req_dec (w j) 0) as [E|E]; [exact E|]. apply Rabs_no_R0 in E. contradiction.
+Qed.
+End KaykobadNonsingular.
